@@ -75,7 +75,7 @@ def build(scn, signer, halg, opts=None, doc=None):
         msg = pgpy.PGPMessage.new(d, cleartext=True)
         out.update(sig=key.sign(msg, **kw), verify_subject=d, ref_subject={'doc': d.encode('utf-8')}, want_type=0x01)
     elif scn == 'timestamp':
-        out.update(sig=key.sign(None, **kw), verify_subject=None, ref_subject={}, want_type=0x40 if not opts or set(opts) <= {'include_issuer_fingerprint'} else None)
+        out.update(sig=key.sign(None, **kw), verify_subject=None, ref_subject={}, want_type=None)     # timestamp or standalone: PGPy's choice, both hash nothing but the trailer
     elif scn == 'standalone':
         kw.setdefault('policy_uri', 'https://example.org/standalone')
         out.update(sig=key.sign(None, **kw), verify_subject=None, ref_subject={}, want_type=0x02)
